@@ -74,6 +74,24 @@ def havX (ra1 dec1 ra2 dec2 : F) : F :=
 def angSep (ra1 dec1 ra2 dec2 : F) : F :=
   2 * Transc.asin (Transc.sqrt (clip01 (havX ra1 dec1 ra2 dec2)))
 
+/-! ### the domain of `arcsin` / `arccos`
+numpy returns NaN outside `[-1, 1]`; `Transc.asin/acos` over ℝ are totalised (clamped).  The `…D`
+functions make the domain explicit (`none` = NaN), and the `…D` variants of the coordinate functions
+below are what the driver executes.  `Props/C19` proves that the *clipped* code never leaves the
+domain whatever value rounding produces, and that over ℝ the `…D` variants agree with the total ones. -/
+
+def asinD (x : F) : Option F := if x < -1 then none else if 1 < x then none else some (Transc.asin x)
+def acosD (x : F) : Option F := if x < -1 then none else if 1 < x then none else some (Transc.acos x)
+
+/-- the tail of `angular_separation` from the haversine argument `x` on (whatever `x` is) -/
+def sepOfX (x : F) : Option F := (asinD (Transc.sqrt (clip01 x))).map (fun a => 2 * a)
+
+/-- `angular_separation` with the NaN domain explicit -/
+def angSepD (ra1 dec1 ra2 dec2 : F) : Option F := sepOfX (havX ra1 dec1 ra2 dec2)
+
+/-- the same tail without the two clipping statements (what the code would be without them) -/
+def sepOfXUnclipped (x : F) : Option F := (asinD (Transc.sqrt x)).map (fun a => 2 * a)
+
 /-- `angular_separation(..., psi_floor)` -/
 def angSepFloor (ra1 dec1 ra2 dec2 : F) (psiFloor : Option F) : F :=
   let psi := angSep ra1 dec1 ra2 dec2
@@ -148,13 +166,17 @@ def psiCircle (srcDec srcRa psi t : F) : V3 F :=
    -(sa * cb * sc) * ct + (sa * cc) * st + (ca * sb * sc),
    (sa * sb) * ct + (ca * cb)⟩
 
+/-- `(dec, ra)` from the Cartesian components as `psi_to_dec_and_ra` extracts them:
+`dec = arctan2(z, hypot(x, y))`, `ra = mod(π − arctan2(y, x), 2π)` — no inverse function with a
+restricted domain is involved. -/
+def xyzToDecRa (v : V3 F) : F × F :=
+  let azi := Fns.atan2 v.y v.x
+  let dec := Fns.atan2 v.z (Transc.sqrt (v.x * v.x + v.y * v.y))
+  (dec, modF (Transc.pi - azi) twoPi)
+
 /-- `psi_to_dec_and_ra(rss, src_dec, src_ra, psi)` for one event with circle parameter `t`
 (the uniform deviate drawn from `rss`) → `(dec, ra)`. -/
-def psiToDecRa (srcDec srcRa psi t : F) : F × F :=
-  let v := psiCircle srcDec srcRa psi t
-  let zen := Transc.acos (clipPM1 v.z)
-  let azi := Fns.atan2 v.y v.x
-  (Transc.pi / 2 - zen, modF (Transc.pi - azi) twoPi)
+def psiToDecRa (srcDec srcRa psi t : F) : F × F := xyzToDecRa (psiCircle srcDec srcRa psi t)
 
 /-- the rotated Cartesian vector of `rotate_spherical_vector` (rotation taking direction 1 onto
 direction 2, applied to direction 3) -/
@@ -219,6 +241,47 @@ reconstructed direction: same position angle and separation from the source as t
 direction has from the true direction. -/
 def relocate (eps srcRa srcDec trueRa trueDec recoRa recoDec : F) : F × F :=
   offsetBy eps srcRa srcDec (posAngle trueRa trueDec recoRa recoDec)
+    (vincenty trueRa trueDec recoRa recoDec)
+
+/-! ### NaN-aware variants (executed by the driver) -/
+
+/-- `alpha = arccos(cos_alpha)` after the two clipping statements of `rotate_spherical_vector` -/
+def alphaOfCos (c : F) : Option F := acosD (clipPM1 c)
+
+/-- `rotVec` with the domain of `arccos` explicit -/
+def rotVecD (ra1 dec1 ra2 dec2 ra3 dec3 : F) : Option (V3 F) :=
+  let c := Transc.cos (ra2 - ra1) * Transc.cos dec1 * Transc.cos dec2
+            + Transc.sin dec1 * Transc.sin dec2
+  (alphaOfCos c).map fun alpha =>
+    let cosA := clipPM1 c
+    let v1 := unitVec ra1 dec1
+    let v2 := unitVec ra2 dec2
+    let v3 := unitVec ra3 dec3
+    let n0 := cross v1 v2
+    let norm := Transc.sqrt (n0.x * n0.x + n0.y * n0.y + n0.z * n0.z)
+    let n : V3 F := if 0 < norm then ⟨n0.x / norm, n0.y / norm, n0.z / norm⟩ else n0
+    rodrigues n cosA (Transc.sin alpha) v3
+
+/-- `vecToRaDec` with the domain of `arcsin` explicit (any vector, unit or not) -/
+def vecToRaDecD (v : V3 F) : Option (F × F) :=
+  (asinD (clipPM1 v.z)).map fun dec => ((vecToRaDec v).1, dec)
+
+def rotateSphericalVectorD (ra1 dec1 ra2 dec2 ra3 dec3 : F) : Option (F × F) :=
+  (rotVecD ra1 dec1 ra2 dec2 ra3 dec3).bind vecToRaDecD
+
+/-- astropy's `cos_b` in `offset_by` -/
+def offsetCosB (lat posang dist : F) : F :=
+  Transc.sin lat * Transc.cos dist + Transc.cos lat * Transc.sin dist * Transc.cos posang
+
+/-- `offset_by` with the domain of its **unclipped** `arcsin(cos_b)` explicit; `cb` is the value
+of `cos_b` the arithmetic produced -/
+def offsetLatOfCosB (cb : F) : Option F := asinD cb
+
+def offsetByD (eps lon lat posang dist : F) : Option (F × F) :=
+  (offsetLatOfCosB (offsetCosB lat posang dist)).map fun d => ((offsetBy eps lon lat posang dist).1, d)
+
+def relocateD (eps srcRa srcDec trueRa trueDec recoRa recoDec : F) : Option (F × F) :=
+  offsetByD eps srcRa srcDec (posAngle trueRa trueDec recoRa recoDec)
     (vincenty trueRa trueDec recoRa recoDec)
 
 end num
